@@ -87,6 +87,26 @@ def run(ctx, idx):
     ok = order == ["own", "NewFieldName", "InFieldName"]
     ctx.ob("C16.b", "%s::result-name" % fi.key, utils.rel, ctor.lineno, ok,
            "result name = own or NewFieldName or InFieldName" if ok else "result name sources are %s, expected own result name, then NewFieldName, then InFieldName" % (order or K.src(e)))
+    # the name comes from an argument *value*, which the parser delivers as any kind (list, number, boolean, nothing):
+    # it must be checked to be a name before it is used as one
+    name_expr = K.src(K.expand(fi, raw_args.get("result_name"))) if raw_args.get("result_name") is not None else None
+    checked = False
+    for n in own_nodes(fi.node):
+        if not isinstance(n, ast.If):
+            continue
+        t = n.test
+        neg = False
+        while isinstance(t, ast.UnaryOp) and isinstance(t.op, ast.Not):
+            neg = not neg
+            t = t.operand
+        if isinstance(t, ast.Call) and isinstance(t.func, ast.Name) and t.func.id == "isinstance" and len(t.args) == 2 and ("string_types" in K.src(t.args[1]) or K.src(t.args[1]) in ("str", "(str,)", "six.text_type")):
+            if K.src(K.expand(fi, t.args[0])) == name_expr:
+                branch = n.body if neg else n.orelse
+                if any(isinstance(x, ast.Raise) for st in branch for x in ast.walk(st)):
+                    checked = True
+    ctx.ob("C16.b", "%s::result-name-is-a-name" % fi.key, utils.rel, ctor.lineno, checked,
+           "the value used as result name is checked to be a string (anything else is refused with a ProgramError)" if checked else
+           "the result name is taken from an argument value without checking that it is a name: `READ(InFileName=a.csv, InFieldName=[a, b])` makes a list the result name and a raw TypeError (unhashable list) escapes from loading; a command with no name source at all silently gets the result name None")
     # arguments
     e = args.get("arguments")
     ok = False
@@ -158,6 +178,8 @@ def run(ctx, idx):
             inner = None
             if isinstance(t, ast.UnaryOp) and isinstance(t.op, ast.Not):
                 inner = t.operand
+                if isinstance(inner, ast.Call) and isinstance(inner.func, ast.Name) and inner.func.id == "isinstance" and inner.args:
+                    inner = inner.args[0]  # "is not a name" covers "is absent"
             elif isinstance(t, ast.Compare) and len(t.ops) == 1 and isinstance(t.ops[0], ast.Is) and isinstance(t.comparators[0], ast.Constant) and t.comparators[0].value is None:
                 inner = t.left
             if inner is None:
@@ -255,21 +277,77 @@ def run(ctx, idx):
     parser_state(ctx, idx, "C16.c")
     pp = pcls.methods.get("p_program")
     if pp is not None:
-        s = K.src(pp.node)
-        ok = "2 if self.eems_v2 else 3" in s
-        if not ok:
-            # statement form: `if self.eems_v2: version = 2 else: version = 3` feeding ProgramNode(..., version)
-            for n in own_nodes(pp.node):
-                if isinstance(n, ast.If) and K.src(n.test) in ("self.eems_v2", "self.eems_v2 is True") and len(n.body) == 1 and len(n.orelse) == 1:
-                    b, o = n.body[0], n.orelse[0]
-                    if isinstance(b, ast.Assign) and isinstance(o, ast.Assign) and isinstance(b.value, ast.Constant) and isinstance(o.value, ast.Constant) and b.value.value == 2 and o.value.value == 3 and K.src(b.targets[0]) == K.src(o.targets[0]):
-                        nm = K.src(b.targets[0])
-                        ok = any(isinstance(c, ast.Call) and K.src(c.func).endswith("ProgramNode") and any(K.src(a) == nm for a in list(c.args) + [k.value for k in c.keywords]) for c in own_nodes(pp.node))
-                if isinstance(n, ast.If) and K.src(n.test) in ("not self.eems_v2",) and len(n.body) == 1 and len(n.orelse) == 1:
-                    b, o = n.body[0], n.orelse[0]
-                    if isinstance(b, ast.Assign) and isinstance(o, ast.Assign) and isinstance(b.value, ast.Constant) and isinstance(o.value, ast.Constant) and b.value.value == 3 and o.value.value == 2:
-                        ok = True
-        ctx.ob("C16.c", "mpilot/parser/parser.py::Parser.p_program::version", pmod.rel, pp.node.lineno, ok, "program node reports 2 iff the flag is set" if ok else "p_program does not report version 2 exactly when the flag is set")
+        # the version handed to ProgramNode, evaluated for both values of the flag (straight-line code, if / conditional expressions)
+        def run_version(flag):
+            env = {}
+
+            def ev(e):
+                if isinstance(e, ast.Constant):
+                    return e.value
+                if isinstance(e, ast.Name):
+                    return env.get(e.id, ("?", e.id))
+                if isinstance(e, ast.Attribute) and e.attr == "eems_v2":
+                    return flag
+                if isinstance(e, ast.UnaryOp) and isinstance(e.op, ast.Not):
+                    v = ev(e.operand)
+                    return (not v) if isinstance(v, bool) else ("?",)
+                if isinstance(e, ast.Compare) and len(e.ops) == 1 and isinstance(e.ops[0], (ast.Is, ast.Eq, ast.IsNot, ast.NotEq)):
+                    a, b = ev(e.left), ev(e.comparators[0])
+                    if isinstance(a, tuple) or isinstance(b, tuple):
+                        return ("?",)
+                    r = a == b
+                    return r if isinstance(e.ops[0], (ast.Is, ast.Eq)) else not r
+                if isinstance(e, ast.IfExp):
+                    t = ev(e.test)
+                    if isinstance(t, tuple):
+                        return ("?",)
+                    return ev(e.body) if t else ev(e.orelse)
+                if isinstance(e, ast.Call) and isinstance(e.func, ast.Name) and e.func.id in ("int", "bool") and len(e.args) == 1:
+                    v = ev(e.args[0])
+                    return ("?",) if isinstance(v, tuple) else (int(v) if e.func.id == "int" else bool(v))
+                if isinstance(e, ast.BinOp) and isinstance(e.op, (ast.Add, ast.Sub)):
+                    a, b = ev(e.left), ev(e.right)
+                    if isinstance(a, tuple) or isinstance(b, tuple):
+                        return ("?",)
+                    return a + b if isinstance(e.op, ast.Add) else a - b
+                if isinstance(e, ast.Subscript) and isinstance(e.value, (ast.Tuple, ast.List, ast.Dict)):
+                    k_ = ev(e.slice)
+                    if isinstance(k_, tuple):
+                        return ("?",)
+                    try:
+                        if isinstance(e.value, ast.Dict):
+                            d_ = {ev(a): b for a, b in zip(e.value.keys, e.value.values)}
+                            return ev(d_[k_])
+                        return ev(e.value.elts[int(k_)])
+                    except Exception:
+                        return ("?",)
+                return ("?",)
+
+            found = []
+
+            def block(stmts):
+                for st in stmts:
+                    if isinstance(st, ast.Assign) and len(st.targets) == 1 and isinstance(st.targets[0], ast.Name):
+                        env[st.targets[0].id] = ev(st.value)
+                    elif isinstance(st, ast.If):
+                        t = ev(st.test)
+                        if isinstance(t, tuple):
+                            found.append(("?",))
+                            return
+                        block(st.body if t else st.orelse)
+                    for c in ast.walk(st) if not isinstance(st, ast.If) else []:
+                        if isinstance(c, ast.Call) and K.src(c.func).endswith("ProgramNode"):
+                            v = next((k.value for k in c.keywords if k.arg == "version"), c.args[1] if len(c.args) > 1 else None)
+                            found.append(ev(v) if v is not None else ("?",))
+
+            block(pp.node.body)
+            return found[-1] if found else ("?",)
+
+        v_true, v_false = run_version(True), run_version(False)
+        if isinstance(v_true, tuple) or isinstance(v_false, tuple):
+            raise AnalysisError("C16.c: the version p_program reports is outside the recognised forms")
+        ok = v_true == 2 and v_false == 3
+        ctx.ob("C16.c", "mpilot/parser/parser.py::Parser.p_program::version", pmod.rel, pp.node.lineno, ok, "program node reports 2 iff the flag is set" if ok else "p_program reports version %r with the EEMS 2.0 flag set and %r without it (2 and 3 expected)" % (v_true, v_false))
 
 
 def parser_state(ctx, idx, rule):
